@@ -23,6 +23,7 @@ Theorem udp_forward_complete e ue st ca cip pkt ent pt payload dst port :
   In ent (items (u_cl st)) -> unpack e (e_key ent) pkt = Some pt ->
   (forall k' pt', unpack e k' pkt = Some pt' -> pt' = pt) ->
   validate_packet ue pt = inl (payload, dst, port) ->
+  ue_sendable ue dst port = true ->                       (* the kernel accepts the send (oracle; port 0 is refused) *)
   exists st' id, udp_client_step e ue st ca cip pkt =
     (st', [UNew ca (u_next st) id; USend (u_next st) dst port payload; UReport (u_next st) us_ok (zlen pkt) (zlen payload)])
     /\ alookup N.eqb ca (u_nat st') <> None.
